@@ -153,7 +153,8 @@ func slots(e *m.Expr) []slot {
 var Mutations = []string{"replace-subexpr", "hetero-element", "hetero-key", "hetero-value", "composite-key", "duplicate-field",
 	"unknown-field", "subscript-non-container", "non-numeric-index", "wrong-key-type", "arity-plus", "arity-minus",
 	"undefined-var", "reserved-var", "optional-for-payload", "inconsistent-typevar", "call-non-function", "empty-literal-mix",
-	"member-on-non-object", "cond-not-bool", "payload-for-optional", "same-variable-twice-then-mismatch"}
+	"member-on-non-object", "cond-not-bool", "payload-for-optional", "same-variable-twice-then-mismatch",
+	"bottom-typed-subexpr", "bottom-typed-key"}
 
 // Mutate applies one mutation to a copy of e and returns it with the
 // mutation's name ("" if the mutation found no place to apply).
@@ -181,7 +182,34 @@ func (g *G) Mutate(e *m.Expr) (*m.Expr, string) {
 		}
 		return Parenthesize(f(e)), kind
 	}
+	// an expression of the element type of an empty literal (⊥): [][0], [:][k], get([], 0, [][0]) ...
+	bottom := func() *m.Expr {
+		switch g.intn("bottomform", 4) {
+		case 0:
+			return m.Index(m.ListE(), m.Lit("num", "0"))
+		case 1:
+			return m.Index(m.MapE(), m.Lit("str", `"k"`))
+		case 2:
+			return m.Index(m.Index(m.ListE(m.ListE()), m.Lit("num", "0")), m.Lit("num", "0"))
+		default:
+			return m.Call("if", m.Lit("bool", "true"), m.Index(m.ListE(), m.Lit("num", "0")), m.Index(m.ListE(), m.Lit("num", "1")))
+		}
+	}
 	switch kind {
+	case "bottom-typed-subexpr":
+		s := pickSlot(any)
+		if s == nil {
+			return e, ""
+		}
+		s.parent.A[s.idx] = bottom()
+		return Parenthesize(e), kind
+	case "bottom-typed-key":
+		s := pickSlot(func(p *m.Expr, i int) bool { return p.K == "map" && len(p.A) >= 2 && i%2 == 0 })
+		if s == nil {
+			return wrapTop(func(x *m.Expr) *m.Expr { return m.Index(m.MapE(bottom(), x), bottom()) })
+		}
+		s.parent.A[s.idx] = bottom()
+		return Parenthesize(e), kind
 	case "replace-subexpr":
 		s := pickSlot(any)
 		if s == nil {
